@@ -1,17 +1,8 @@
-(** C16: refutations kept as findings (each closed by vm_compute in
-    proofs/CroltProofs.v), and the traces of the repaired cron defects
-    (D26, D38, D49, D50) with their outcome after the repair
-    (proofs/CronProofs.v). *)
+(** C16: no refutation is left open.  The traces of the repaired defects
+    (cron: D26, D38, D49, D50; crolt: D40, D39) with their outcome after the
+    repair (closed by vm_compute in proofs/CronProofs.v and
+    proofs/CroltProofs.v). *)
 From Verif Require Import Json Outcome Cron Crolt CronSpec CronProofs CroltSpec CroltProofs.
-
-(** D40: crolt's Add trusts the client's TId and deletes that time entry. *)
-Definition client_tid_breaks_consistency_refuted := client_tid_breaks_consistency_counterexample.
-(** D39: crolt's time keys are ordered as strings: inside one second an entry
-    can count as due before its instant, or not be due after it; keys of whole
-    seconds are not due before the next second. *)
-Definition work_fires_subsecond_early_refuted := work_fires_subsecond_early_counterexample.
-Definition work_defers_due_entry_refuted := work_defers_due_entry_counterexample.
-Definition whole_second_key_waits_a_second_refuted := whole_second_key_waits_a_second_counterexample.
 
 (** Repaired (the trace that refuted the clause on the pinned code, with what
     the repaired code does):
@@ -25,3 +16,11 @@ Definition rem_head_rearms := rem_head_rearms_example.
 Definition add_while_suspended_quiet := add_while_suspended_quiet_example.
 (** D50: an Add refused at capacity leaves the pending job of that id in place. *)
 Definition add_at_capacity_refused_keeps_job := add_at_capacity_refused_keeps_job_example.
+(** D40: an Add that carries the TId of another job: the TId is ignored and the
+    buckets stay consistent. *)
+Definition client_tid_ignored_fixed := client_tid_ignored_example.
+(** D39: with fixed-width keys an entry due 50 ms after now is not due, one due
+    50 ms ago is, and a whole-second key is due within its second. *)
+Definition subsecond_not_early := subsecond_not_early_example.
+Definition due_entry_not_deferred := due_entry_not_deferred_example.
+Definition whole_second_key_due_in_its_second := whole_second_key_due_in_its_second_example.
